@@ -235,11 +235,13 @@ def with_array_forms(shards, tier, pick):
     """Copies of the picked shards that hand the library another FORM of the same arrays (mc/values.np_array):
     quick - a read-only strided view, and plain Python lists (for the kinds whose dtype the constructor infers from a
     list); thorough - also a plain read-only array and a negative-stride view."""
-    forms = ["strided", "pylist"] if tier == "quick" else ["strided", "pylist", "readonly", "reversed"]
+    forms = ["strided", "pylist", "npstring"] if tier == "quick" else ["strided", "pylist", "npstring", "readonly", "reversed"]
     extra = []
     for sh in shards:
         if "__env__" not in sh and pick(sh):
             for form in forms:
+                if form == "npstring" and "str" not in json.dumps(sh):
+                    continue   # (only shards that hold string columns)
                 extra.append(dict(sh, __env__={"MC_ARRAY_FORM": form}))
     return shards + extra
 
